@@ -444,11 +444,15 @@ func (txn *Txn[T]) LowerBound(key index.Key) *Iterator[T] {
 }
 
 func (txn *Txn[T]) Commit() Trie[T] {
-	return Trie[T]{
+	trie := Trie[T]{
 		root:      txn.root,
 		size:      txn.size,
 		prevTxnID: txn.txnID,
 	}
+	// Bump txnID to freeze the committed trie: if this transaction is used
+	// further it must clone the nodes it has handed out.
+	txn.txnID++
+	return trie
 }
 
 // longestMatch returns the number of common prefix bits.
